@@ -95,7 +95,9 @@ fn spec(cfg: Config, mode: Mode, depth: usize, devs: usize) -> SeqSpec {
         }
         a
     });
-    let goal = Arc::new(|e: &Exec| e.steps.iter().any(|s| matches!(s.real, Real::Err(EClass::Exhausted))) && e.steps.iter().filter(|s| matches!(s.op, Op::TRead { .. } | Op::SRead { .. }) && s.real.is_ok()).count() >= 1);
+    // non-vacuity witness: a call refused with the exhaustion error (a goal must be decidable from the last
+    // step / the state: histories are merged); accepted reads are witnessed by the outcome set
+    let goal = Arc::new(|e: &Exec| matches!(e.steps.last().map(|s| &s.real), Some(Real::Err(EClass::Exhausted))));
     SeqSpec { cfg, prefix, max_depth: depth, max_devs: devs, alphabet, judge: judge(), goal }
 }
 
@@ -118,7 +120,13 @@ pub fn run(tier: Tier) -> i32 {
     }
     specs.par_iter().for_each(|(s, label)| {
         let r = seqmc::explore(s.clone());
+        if std::env::var("C09_DEBUG").is_ok() && !r.goal_reached {
+            eprintln!("{label}: states {} transitions {} max_depth {} outcomes {:?}", r.states, r.transitions, r.max_depth, r.outcomes);
+        }
         absorb(&ctx, s, &r, label);
+        if !r.outcomes.iter().any(|o| (o.starts_with("TRead") || o.starts_with("SRead")) && o.ends_with("-> Ok")) {
+            ctx.vacuous(format!("{label}: no read was ever accepted"));
+        }
     });
     let (s0, _) = &specs[0];
     sample_ops(&ctx, &s0.cfg, &{
